@@ -4,7 +4,11 @@ CONSTANT EmitOn
 VARIABLE hist
 mcvars == <<vars, hist>>
 MCInit == Init /\ hist = <<>>
-MCNext == Next /\ hist' = Append(hist, [ev |-> out'.ev, res |-> out'.res, dropped |-> out'.dropped, new |-> out'.new])
+\* alt: the other outcome the statement allows for this step.  When a clone is alive AND the thread is foreign the
+\* statement only says that verification panics; teardown.rs happens to test the clones first, the other order
+\* would hold the property just as well.
+Alt(o) == IF o.res = "panic:clones" /\ o.others /\ o.foreign THEN "panic:thread" ELSE o.res
+MCNext == Next /\ hist' = Append(hist, [ev |-> out'.ev, res |-> out'.res, alt |-> Alt(out'), dropped |-> out'.dropped, new |-> out'.new])
 \* a behaviour is complete when it used all its steps or nothing is alive any more
 Complete == steps = MaxSteps \/ RefCnt(inst) = 0
 MCSpec == MCInit /\ [][MCNext]_mcvars
